@@ -12,11 +12,16 @@ RULE = ("Hypothesis-generated molecules (H2, HeH+, H3+/H3/H3-, H4 chain/ring/3-D
         "non-contiguous/occupied+virtual/per-spin UHF lists) x encodings JW/BK/scBK/JKMN x both orderings (all 8 for every "
         "molecule) + a random Givens-sequence rotation of the active orbitals. Oracles: determinant-space CI built from AO "
         "integrals (vlib/refchem), PySCF SCF energy, Tangelo FCISolver (RHF/ROHF). Non-trivial = >=2 active orbitals and "
-        "a sector of dimension >=2. Distinct = distinct canonical JSON of (molecule, rotation, backend-config choice).")
+        "a sector of dimension >=2. Histories on one object: (i) restricted molecule asked, in a drawn order, for its Hamiltonian / "
+        "full-space integrals with its own coefficients and with an explicit rotated mo_coeff= argument, each answer judged for "
+        "the coefficients requested; (ii) 2-3 molecules of one family/basis built in sequence with one shared IntegralSolverPySCF "
+        "instance, each judged right after construction. Distinct = distinct canonical JSON of the case.")
 ASSUMPTIONS = ["PySCF AO integrals, SCF energy and nuclear repulsion", "numpy/scipy linear algebra",
                "vlib/refchem determinant-space CI oracle (self-tested against PySCF FCI) and vlib/refops ladder operators",
                "sector selection uses Tangelo's number_operator/spinz_operator through the same encoding (covered by C03/C12)",
                "<=10 qubits, <=6 kept (frozen occupied + active) orbitals per spin, first/second-row atoms, small bases",
+               "shared-solver histories judge only the most recently built molecule (the solver object owns the MO coefficients, "
+               "so an older molecule sharing it sees the newest coefficients by construction)",
                "FCISolver comparison is waived when spin=0, nothing is frozen and the Sz=0 ground state is a triplet "
                "(the solver then uses PySCF's singlet-only direct_spin0 by design)"]
 SHARDS = {"quick": 4, "thorough": 16}
@@ -246,7 +251,10 @@ def _bounds(ctx):
 @part("energies", quick=44, thorough=2400)
 def energies(ctx):
     """All reference types, all frozen-orbital forms, all molecule families."""
-    ctx.search("energies", cases(M.molecules(**_bounds(ctx))), lambda c: check_molecule(ctx, c),
+    # the padded UHF register (open finding PHANTOM_SIG) is the subject of the uhf_perspin part; it is kept out of this
+    # search by construction so that no budget goes into shrinking a known failure
+    ctx.search("energies", cases(M.molecules(**_bounds(ctx)).filter(lambda m: not padded_register({"mol": m}))),
+               lambda c: check_molecule(ctx, c),
                exclusions={PHANTOM_SIG: padded_register}, shrink_calls=60 if ctx.tier == "quick" else 300)
 
 
@@ -269,10 +277,10 @@ def uhf_perspin_molecules(draw):
     return m
 
 
-@part("uhf_perspin", quick=20, thorough=800)
+@part("uhf_perspin", quick=16, thorough=800)
 def uhf_perspin(ctx):
     ctx.search("uhf_perspin", cases(uhf_perspin_molecules()), lambda c: check_molecule(ctx, c),
-               exclusions={PHANTOM_SIG: padded_register}, shrink_calls=60 if ctx.tier == "quick" else 300)
+               exclusions={PHANTOM_SIG: padded_register}, shrink_calls=8 if ctx.tier == "quick" else 100)
 
 
 @part("open_shell_frozen", quick=20, thorough=800)
@@ -282,7 +290,8 @@ def open_shell_frozen(ctx):
                              .filter(lambda m: m["frozen"] not in (None, 0))), lambda c: check_molecule(ctx, c), frac=0.6,
                shrink_calls=60 if ctx.tier == "quick" else 300)
     ctx.search("symmetric", cases(M.molecules(families=list(M.SYMMETRIC_FAMILIES) + ["H4-ring", "BeH2"], invalid=False,
-                                              exact_symmetry=True, **_bounds(ctx))), lambda c: check_molecule(ctx, c), frac=0.4,
+                                              exact_symmetry=True, **_bounds(ctx)).filter(lambda m: not padded_register({"mol": m}))),
+               lambda c: check_molecule(ctx, c), frac=0.4,
                exclusions={PHANTOM_SIG: padded_register}, shrink_calls=60 if ctx.tier == "quick" else 300)
 
 
@@ -399,7 +408,7 @@ def check_shared_solver(ctx, case):
 def shared_solver_cases(draw):
     fam = draw(st.sampled_from(["H2", "H3", "H4-chain", "H4-3d", "H4-ring", "HeH", "LiH"]))
     basis = draw(st.sampled_from([b for b in M.FAMILIES[fam][2] if b in ("sto-3g", "6-31g")]))
-    one = M.molecules(max_qubits=8, max_kept=5, families=[fam], bases=(basis,), invalid=False)
+    one = M.molecules(max_qubits=8, max_kept=5, families=[fam], bases=(basis,), invalid=False).filter(lambda m: not padded_register({"mol": m}))
     mols = draw(st.lists(one, min_size=2, max_size=3))
     return {"mols": mols, "cfgs": draw(st.lists(st.sampled_from(CONFIGS), min_size=1, max_size=1))}
 
